@@ -31,7 +31,7 @@ class Stream:
 
     def draw(self, n):
         """int in [0, n)."""
-        if n <= 1:
+        if n <= 1 or self.src.frozen:
             return 0
         if self.replay is None:
             v = self.rng.randrange(n)
@@ -104,6 +104,7 @@ class ChoiceSource:
         self.replay = replay
         self.streams = {}
         self.n_draws = 0
+        self.frozen = False  # set at the end of a run: teardown code must not consume or record choices
 
     def stream(self, label, exhaust='zero'):
         s = self.streams.get(label)
